@@ -198,26 +198,41 @@ func init() {
 						if ch2 := getWaitCh(); ch2 != ch {
 							fail("C03.generation", "two getWaitCh calls in one critical section without a broadcast returned different channels")
 						}
-						check("observer section after getWaitCh")
 					})
 				}
 			})
 			h := vsched.Choose(3)
 			T("B1", func() { bump(&b, 0); bump(&b, h) })
+			h2 := vsched.Choose(3)
 			T("B2", func() {
-				b.HoldLock(func(bc func(), getWaitCh func() <-chan struct{}) {
-					// obtain, broadcast, obtain again inside one section
-					ch := getWaitCh()
+				cb := func(bc func(), getWaitCh func() <-chan struct{}) {
+					// obtain, broadcast, obtain again, broadcast again inside one section; the
+					// channels are recorded and judged in later critical sections only (an
+					// implementation may close them any time before the section ends)
+					check("bumper section (start)")
+					hold := func(ch <-chan struct{}) {
+						n := int(vsched.Ctr(cHeld))
+						vsched.SetCell(n, ch)
+						vsched.CtrSet(cGen0+n, vsched.Ctr(cNB))
+						vsched.CtrAdd(cHeld, 1)
+					}
+					hold(getWaitCh())
 					vsched.CtrAdd(cNB, 1)
 					bc()
-					if !vsched.ChanClosed(ch) {
-						fail("C03.generation", "channel obtained before a broadcast in the same critical section is not closed by it")
+					hold(getWaitCh())
+					vsched.CtrAdd(cNB, 1)
+					bc()
+				}
+				switch h2 {
+				case 0:
+					b.HoldLock(cb)
+				case 1:
+					if !b.TryHoldLock(cb) {
+						b.HoldLock(cb)
 					}
-					if ch2 := getWaitCh(); vsched.ChanClosed(ch2) {
-						fail("C03.generation", "channel obtained after a broadcast is already closed")
-					}
-					check("bumper section")
-				})
+				case 2:
+					b.HoldLockMaybeAsync(cb)
+				}
 			})
 			vsched.Settle()
 			b.HoldLock(func(bc func(), getWaitCh func() <-chan struct{}) { check("final") })
